@@ -33,12 +33,12 @@ P = {
          "(box_size() == ISO length, write_box advances by exactly that, read_box consumes exactly the declared size for both header forms, trailing bytes skipped), also for elst, edts, trun, traf, moof, mvex under their wire predicates; data box byte-exact both ways. "
          "Every box type is proved to report its own BoxType. Decoders of stbl, minf, mdia, trak, moov, moof, traf, trun, stsd, avc1, avcC (incl. NAL units), hev1, the hvcC fixed header, vp09, vpcC, tx3g, mp4a (esds selection), the AudioSpecificConfig and the descriptor length coding, data / ilst / meta / udta: functional, against layout predicates and forward folds over the sibling chain; vpcC and avcC encoders byte-exact with proved round trips. "
          "The spec-level round trip X_at(wr(d, p, X_bytes(b)), p, b) is proved for the 11 fixed-layout boxes, the 7 table boxes, ftyp, avcC, avc1, esds (descriptor tree), mp4a, stsd and hdlr (generated / hand-written lemmas), with decode-is-a-function lemmas for the tables. "
-         "Byte-exact encoders, proved write by write against reference bytes (tool/gen_pieces.py), additionally for the esds descriptors, vp09, url, dref, dinf, stbl, minf, mdia, trak and moov (conditional on every child having a byte-exact encoder: no hev1 / tx3g entry, edit list or metadata)."),
+         "Byte-exact encoders, proved write by write against reference bytes (tool/gen_pieces.py), additionally for the esds descriptors, vp09, hev1, hvcC (incl. the NAL-unit arrays), tx3g, url, dref, dinf, stbl, minf, mdia, trak and moov (edit lists and metadata have no byte-exact encoder and are required absent, as in everything the muxer builds)."),
    note=TRUST + " Domain: box_size <= u32::MAX (D-20). Round trip not mechanised for the size-level boxes. "
-        "Not under functional contract: hdlr name / url location strings on the decode side, the hvcC NAL arrays, elst/emsg decoders (consumption only), encoders of hev1 / hvcC / tx3g field values (sizes only), encoders of ilst / meta / udta (HashMap iteration); the esds descriptor tree is decoded functionally for well-formed chains only (malformed chains: safety / termination only); container-level decode round trips are not mechanised."),
+        "Not under functional contract: hdlr name / url location strings on the decode side, the emsg decoder (consumption only), byte-exact encoders of elst / emsg / trun (sizes only), encoders of ilst / meta / udta (HashMap iteration); the esds descriptor tree is decoded functionally for well-formed chains only (malformed chains: safety / termination only); container-level decode round trips are not mechanised."),
  'C05': dict(claim=True, cat='proof', technique='same obligations as C04; the specs are generated from the ISO syntax tables with clause numbers (tool/gen_layouts.py, tool/gen_tables.py) or written from them; Kani full-domain harnesses for bit-level helpers',
    text="Conformance of the boxes listed under C04 (byte level), of the descriptor length coding (size_of_length, Kani all u32), the AAC object-type escape coding (Verus + Kani all 2^16), the box-type registry (Kani: independent table) and BoxHeader::read (Kani, all 16-byte inputs: complete) to layouts written from ISO/IEC 14496-12/-14/-1, proved separately for encoder and decoder so that a symmetric mistake fails on both.",
-   note=TRUST + " Bit-packed records: avcC, vpcC, the AudioSpecificConfig and the DecoderConfigDescriptor are covered byte-exactly; the hvcC field values on the encode side and its NAL arrays are not."),
+   note=TRUST + " Bit-packed records: avcC, vpcC, the AudioSpecificConfig and the DecoderConfigDescriptor are covered byte-exactly; hvcC byte-exactly on the encode side and field by field (header and NAL-unit arrays) on the decode side."),
  'C06': dict(claim=True, cat='proof', technique='Verus safety obligations (overflow, division, index, unwrap, panic!) under parser-established preconditions only',
    text=("Absence of panics proved for every decoder (all read_box functions, descriptors, NAL units, header helpers), every Mp4Track lookup/accessor in both the sample-table and the fragment branch, Mp4Reader accessors and the metadata accessors, "
          "for all inputs satisfying only what the parser itself establishes (a header was read, the declared size does not exceed the input, `track_parsed`). Fourteen genuine panics/hangs on this path were found this way and repaired by fix: commits (known_findings.json)."),
@@ -77,7 +77,8 @@ P = {
          "hev1 / hvcC header / vp09 / vpcC / tx3g entries are decoded against layout predicates as well. "
          "The esds descriptor tree (ES_Descriptor, DecoderConfigDescriptor with both bitrates, AudioSpecificConfig, SLConfigDescriptor) is byte-exact on the encode side and decoded functionally for well-formed chains; lemma_esds_roundtrip / lemma_mp4a_roundtrip / lemma_avc1_roundtrip / lemma_hdlr_roundtrip / lemma_stsd_roundtrip prove that the reference bytes of what the muxer builds decode to the same values; "
          "Mp4TrackWriter::new is proved to build exactly those shapes with the configured values, write_end to change nothing of the sample description but bufferSizeDB; hdlr, stsd, stbl ... moov encoders are byte-exact. "
-         "Level 'other': the container-level decode round trip (frame lemmas) and therefore the end-to-end composition is not one lemma; hev1 / tx3g encoders' field values are not under functional contract."),
+         "Mp4Writer::write_end's postcondition (mw_final) names the finished file: pending chunks flushed in track order, mdat size patched, moov = byte-exact encoding of the finished tracks. "
+         "Level 'other': the container-level decode round trip (frame lemmas) and therefore the end-to-end composition is not one lemma."),
    note=TRUST),
  'C15': dict(claim=True, cat='proof', technique='Verus frame conditions + postconditions that are functions of (tables, stream data, arguments)',
    text="Reader calls leave tracks/moov/ftyp/size and the stream content unchanged (&mut self frame proved) and their results are specified purely in terms of the tables, the stream data and the arguments (never the stream position), with uniqueness lemmas, so any call history returns what a fresh reader returns. Muxer: every step's result is a function of the previous abstract state and the arguments (C01).",
